@@ -666,6 +666,15 @@ def gen_capi(rng, n, tier):
                 for chk in ("0", "1"):
                     nb = hs * (1 if comp == "1" else 2)
                     L.append("capi unmarshal %s %s %s %s" % (g, comp, chk, bytes(rng.getrandbits(8) for _ in range(nb)).hex()))
+    # wkdibe.h scalar helpers: streams whose accepted draw is 0 / 2^255 (zero after the top bit is cleared), r, r+-1, 2^256-1, and random ones
+    def le32(v): return v.to_bytes(32, "little").hex()
+    tail = lambda: bytes(rng.getrandbits(8) for _ in range(32 * 40)).hex()
+    for first in ([0], [1 << 255], [R, 0], [(1 << 256) - 1, 1 << 255], [R - 1], [R + 1, 5], [1], [R | (1 << 255), 7]):
+        L.append("capi wk_random_zpstar misc %s%s" % ("".join(le32(v) for v in first), tail()))
+    for _ in range(max(2, n // 3)):
+        L.append("capi wk_random_zpstar misc %s" % tail())
+    for v in (0, 1, R - 1, R, R + 1, 1 << 255, (1 << 255) | R, (1 << 256) - 1, rng.getrandbits(256)):
+        L.append("capi wk_scalar_hash_reduce misc %s" % le32(v))
     for _ in range(max(2, n // 3)):
         a = e12(rng); b = e12(rng)
         L.append("capi gt_add gt %s %s" % (a, b)); L.append("capi gt_negate gt %s" % a); L.append("capi gt_double gt %s" % a)
